@@ -145,7 +145,7 @@ fn stage_sig(st: &Stage, len: usize) -> String {
         Stage::VShift { n, fill } => format!("vshift[{},{}]", lag_class(*n, len), fill.is_some()),
         Stage::Take { k } => format!("take[{}]", k_class(*k, len + 1)),
         Stage::StepBy { k } => format!("step_by[{}]", (*k).min(4)),
-        Stage::Loose { m } => format!("filter[{m}]"),
+        Stage::Loose { m } => format!("loose[{m}]"),
         Stage::VClip { lo, hi } => format!("vclip[{},{}]", lo.is_null(), hi.is_null()),
         Stage::Remat { backend, op } => format!("remat[{},{}]", backend.kind(), viewop_sig(op, len)),
         Stage::VCut { bins, labels, right, add_bounds } => {
@@ -348,6 +348,38 @@ pub fn check_pipe(p: &Pipe) -> (Vec<Violation>, RunStats) {
                                 ),
                             });
                         }
+                    }
+                }
+                // a double-ended stream must hold what it announces from the back as well
+                if !bad && o.de && !o.plain && !o.capped {
+                    st.executions += 1;
+                    match probe_back(p, cut) {
+                        Ok(b) => {
+                            st.hit("oracle_H1_hint_vs_back_drain");
+                            if b.capped || b.drained.len() != got {
+                                viol.push(Violation {
+                                    props: vec!["C09"],
+                                    oracle: "H1",
+                                    stage: stage.clone(),
+                                    detail: format!(
+                                        "after {cut} consumer steps size_hint() = {:?}; next() yields {got} items but next_back() yields {}{}",
+                                        o.hint,
+                                        if b.capped { "at least " } else { "" },
+                                        b.drained.len()
+                                    ),
+                                });
+                            }
+                        },
+                        Err(msg) => {
+                            if !(msg.starts_with(HARNESS) || msg.starts_with("DOCUMENTED-ERR") || documented_panic(p, &msg, None)) {
+                                viol.push(Violation {
+                                    props: vec!["C09"],
+                                    oracle: "H4",
+                                    stage: stage.clone(),
+                                    detail: format!("library panicked while draining from the back after {cut} consumer steps: {msg}"),
+                                });
+                            }
+                        },
                     }
                 }
                 if cut > 0 && !bad {
